@@ -61,6 +61,11 @@ func (p Person) GetKids() []Person     { return p.Kids }
 
 var ErrSentinel = errors.New("sentinel failure")
 
+// structs whose ID/Slug fields have non-comparable or interface types (pathFor inspects them)
+type WithSliceID struct{ ID []int }
+type WithMapSlug struct{ Slug map[string]int }
+type WithAnyID struct{ ID interface{} }
+
 type countIter struct{ n, max int }
 
 func (c *countIter) Next() interface{} {
